@@ -49,9 +49,24 @@ def oenv():
 # ----------------------------------------------------------------------------- function payloads
 
 
+def sort_edge_lists(x):
+    """A parsed JSON value with the `edges` array of every HUGR document inside it (the value itself, documents
+    embedded in function constants, at any depth) put in one fixed order: the property promises every edge, not
+    its place in the array, so documents are compared with their edges taken as a multiset."""
+    if isinstance(x, dict):
+        y = {k: sort_edge_lists(v) for k, v in x.items()}
+        if isinstance(y.get("nodes"), list) and isinstance(y.get("edges"), list):
+            y["edges"] = sorted(y["edges"], key=lambda e: json.dumps(e, sort_keys=True))
+        return y
+    if isinstance(x, list):
+        return [sort_edge_lists(v) for v in x]
+    return x
+
+
 def _canon_hugr_dict(h):
     """Embedded HUGR (SerialHugr instance or JSON dict) as a plain dict with every default filled in by the
-    serial models, recursively through function constants nested inside; encoder name dropped."""
+    serial models, recursively through function constants nested inside; encoder name dropped; the edge list
+    of every document in a fixed order (multiset comparison: C05 promises no order of `edges`)."""
     from hugr._serialization.serial_hugr import SerialHugr
     if isinstance(h, dict):
         h = SerialHugr.load_json(h)
@@ -66,7 +81,7 @@ def _canon_hugr_dict(h):
         if isinstance(x, list):
             return [walk(v) for v in x]
         return x
-    return walk(d)
+    return sort_edge_lists(walk(d))
 
 
 def canon_hugr_json(h) -> str:
@@ -741,8 +756,10 @@ def foreign_doc(rng, h):
     return T.shuffle_keys(rng, doc)
 
 
-def observe_doc(j):
-    """Load a JSON document with Hugr.load_json, re-save with to_json, compare through the public API."""
+def observe_doc(j, ctx=None):
+    """Load a JSON document with Hugr.load_json, re-save with to_json, compare through the public API.
+    DIAGNOSTIC only (evidence key `model_drift`, never a verdict): in how many documents the re-saved `edges` array
+    lists the same edges in another order than the Gallina model `to_serial` does (= the order of the input)."""
     from hugr.hugr import Hugr
     from hugr.hugr.node_port import Node
     from hugr._serialization.serial_hugr import SerialHugr
@@ -765,6 +782,14 @@ def observe_doc(j):
     ok = ok and len(h) == len(j["nodes"])
     for i, n in enumerate(j["nodes"]):                # node kinds and names through the public API
         ok = ok and out["nodes"][i]["op"] == n["op"] and out["nodes"][i].get("name") == n.get("name")
+    if ctx is not None:
+        ends = lambda es: [[a[0], b[0]] for a, b in es]
+        d = ctx.stats.setdefault("model_drift", {"doc_cases": 0, "edge_order_differs_from_model": 0, "examples": []})
+        d["doc_cases"] += 1
+        if ends(out["edges"]) != ends(j["edges"]) and sorted(ends(out["edges"])) == sorted(ends(j["edges"])):
+            d["edge_order_differs_from_model"] += 1
+            if len(d["examples"]) < 3:
+                d["examples"].append({"input_edges": j["edges"][:8], "resaved_edges": out["edges"][:8]})
     return {**o, "raised": None, "reser": walk_sdoc(s_out), "ok": bool(ok)}
 
 
